@@ -141,6 +141,13 @@ def gen_reg(repo):
     if re.search(r'current\(GC\)|\brem\(|GC_', db): raise ExtractError('dealloc now talks to the collector: the model of `dealloc` (registry untouched) is stale')
     for f in ('dealloc_raw', 'dealloc_root'):
         if not re.fullmatch(r'\s*dealloc\(self\)\s*;\s*', func_body(asrc, f)): raise ExtractError(f'{f}: expected `{{ dealloc(self); }}`')
+    # del_raw = del_by(self, ALLOC_RAW): `case ALLOC_RAW: break;` then `dealloc(destruct(self));` — no GC_Rem on that route
+    # (C17_del_raw_managed_refuted, the second entrance to KF-C17-dealloc-stale, depends on it)
+    if not re.fullmatch(r'\s*del_by\(self,\s*ALLOC_RAW\)\s*;\s*', func_body(asrc, 'del_raw')): raise ExtractError('del_raw: expected `{ del_by(self, ALLOC_RAW); }`')
+    dby = func_body(asrc, 'del_by')
+    if not re.search(r'case\s+ALLOC_RAW\s*:\s*break\s*;\s*\}\s*dealloc\(destruct\(self\)\)\s*;\s*$', dby.strip() + '\n', re.S) and \
+       not re.search(r'case\s+ALLOC_RAW\s*:\s*break\s*;\s*\}\s*dealloc\(destruct\(self\)\)\s*;', dby):
+        raise ExtractError('del_by: expected `case ALLOC_RAW: break; } dealloc(destruct(self));` (del_raw does not tell the collector)')
     # --- struct GCEntry
     m = re.search(r'struct\s+GCEntry\s*\{([^}]*)\}', src)
     if not m: raise ExtractError('struct GCEntry not found')
